@@ -11,6 +11,7 @@ import (
 
 	netty "github.com/go-netty/go-netty"
 	"github.com/go-netty/go-netty/zz_verif/explore"
+	"github.com/go-netty/go-netty/zz_verif/hlib"
 	"github.com/go-netty/go-netty/zz_verif/mock"
 	"github.com/go-netty/go-netty/zz_verif/vsched"
 )
@@ -232,7 +233,7 @@ func scenario(p plan, bound int) *explore.Scenario {
 					}
 				}
 			}
-			if n := netty.VerifHolderSize(o.holder); n != 0 {
+			if n := hlib.HolderSize(o.holder); n > 0 {
 				add("holder-not-empty", fmt.Sprintf("%d channels still registered in the holder;%s", n, ctxs))
 			}
 			for _, t := range x.Threads() {
